@@ -36,6 +36,10 @@ type Ctx struct {
 	// zone the harness process started with). The services build the window with time.Unix(0, ns), a time in that zone;
 	// the planner model has no such parameter: the statement must not depend on it (C07 round 6, seeded C07-f).
 	TZ string `json:"tz,omitempty"`
+	// Overlap (C08 round 8, metric cases): the window [from_ns, to_ns] of a second request with the byte-identical query text that
+	// is transpiled and processed completely while this case's request stands in the middle of its Process call; both requests go
+	// through logql_transpiler_v2.Transpile + chain[0].Process as QueryRangeService does (overlap.go). The statement must not depend on it.
+	Overlap *[2]int64 `json:"overlap,omitempty"`
 }
 
 type Case struct {
@@ -403,6 +407,20 @@ func run(c *Case) {
 	}
 	if c.Runs < 1 {
 		c.Runs = 1
+	}
+	if c.Ctx.Overlap != nil && c.Metric && !c.Bp {
+		d, _ := shared.GetDuration(script)
+		stmt, kind, text := runOverlap(c, d.Nanoseconds())
+		if kind != "" {
+			c.Err, c.ErrText = kind, text
+			return
+		}
+		c.SQL = []string{stmt}
+		c.SqlTreeML, c.SqlTreeErr = "", ""
+		if len(c.Dbs) > 0 {
+			c.SqlTreeML, c.SqlTreeErr = implTree(c.SQL[0])
+		}
+		return
 	}
 	for k := 0; k < c.Runs; k++ {
 		if k > 0 && k-1 < len(c.Rewin) { // live tail with the windows the case names: a NEW context per tick, as QueryRangeService.Tail builds it
